@@ -24,7 +24,7 @@ def modelMethods (dr : Bool) (empty : Cols) : Methods :=
     swap := fun c a b => let r := c.apply2 (swapOp a b) (Model.noArgs c); { st := r.st, panicked := r.panicked },
     empty := empty }
 
-@[simp] theorem ev_append_empty' (a : Ev) : a ++ ({} : Ev) = a := by
+@[simp] theorem ev_append_nil (a : Ev) : a ++ ({} : Ev) = a := by
   show Ev.append a {} = a
   cases a; simp [Ev.append]
 @[simp] theorem ev_empty_append (a : Ev) : ({} : Ev) ++ a = a := by
@@ -81,7 +81,7 @@ theorem truncate_loop : ∀ (n : Nat) (c : Cols) (m : Mach) (f g F : Nat), c.loc
       have ih := truncate_loop j st { m with self := st, ev := m.ev ++ dropWhole dr e } f g F hl rfl (by omega) (by omega)
       simp only [hk, decide_true, ↓reduceIte, truncBody, truncEnv, execList, exec, eval, evalList, callSelf, callOther, moveArg, afterSelf,
         modelMethods, Res.bind, hm, hpop, Bool.false_eq_true, List.head?_cons, Option.bind_some, asParam, asVar, dropV,
-        ev_append_empty', ev_append_assoc, ev_empty_append]
+        ev_append_nil, ev_append_assoc, ev_empty_append]
       simpa [truncCond, truncBody, truncEnv, ev_append_assoc] using ih
     · simp [hk, outOf, hm]
 
